@@ -33,7 +33,7 @@ package glyf
 //@   ensures fresh(locaData)
 //@   modifies nothing
 //@   loop 0
-//@     invariant len(locaData) == 2*len(offs) && fresh(locaData) && off(locaData) == 0 && offs[len(offs)-1] <= 65535
+//@     invariant len(locaData) == 2*len(offs) && fresh(locaData) && off(locaData) == 0 && offs[len(offs)-1] <= 131071
 //@     invariant forall j int :: 0 <= j && j < iter ==> 2*be16(locaData, 2*j) == offs[j]
 //@   loop 1
 //@     invariant len(locaData) == 4*len(offs) && fresh(locaData) && off(locaData) == 0
